@@ -30,4 +30,6 @@ def everything(props, tier):
     hs += linear_harnesses(tier, modes=("forward",))
     hs += nets_harnesses(tier)
     hs += rows_harnesses(tier)
+    if "C12" in props:
+        hs += movement_harnesses(tier)       # squeeze, permutations, 1x1 convolution (batch of two images)
     return hs
